@@ -126,8 +126,8 @@ def load_known():
         return json.load(f).get('findings', [])
 
 
-def run_property(prop, module, root, tier, seed):
-    t0 = time.time()
+def analyse(prop, module, root, tier):
+    """run the rules of one property on the tree at `root`; returns (ctx, status, error text)"""
     ctx = Context(prop, root, tier)
     status = 0
     err = None
@@ -145,6 +145,12 @@ def run_property(prop, module, root, tier, seed):
         import traceback
         err = 'internal error: %r\n%s' % (e, traceback.format_exc())
         status = 2
+    return ctx, status, err
+
+
+def run_property(prop, module, root, tier, seed):
+    t0 = time.time()
+    ctx, status, err = analyse(prop, module, root, tier)
 
     known = [k for k in load_known() if k.get('property') == prop and k.get('status', 'known') == 'known']
     new, listed = [], []
@@ -211,6 +217,12 @@ def run_property(prop, module, root, tier, seed):
         'violations': len(new),
     }
     ev['coverage'].update(ctx.extra)
+    if tier == 'thorough' and os.path.abspath(root) == '/repo':
+        try:
+            from . import selftest
+            ev['coverage']['selftest'] = selftest.run(prop, module)
+        except Exception as e:      # informational only: never changes the verdict
+            ev['coverage']['selftest'] = {'error': repr(e)}
     os.makedirs(evdir, exist_ok=True)
     with open(os.path.join(evdir, '%s.json' % prop), 'w') as fh:
         json.dump(ev, fh, indent=1, sort_keys=True)
